@@ -45,6 +45,7 @@ type Scenario struct {
 	Storm        bool     `json:"storm"`            // many quick cycles of coinciding causes (no settle time between them)
 	Calls        string   `json:"calls"`            // what the handlers call while the disconnect is in progress: "" | me | connected
 	FailFirst    string   `json:"fail_first"`       // "" | dial | tls: a Connect that fails (dial error, TLS handshake failure) precedes the session
+	RegClose     bool     `json:"reg_close"`        // a user REGISTER handler (it runs on the caller of Connect) calls Close()
 	CancelAtDial bool     `json:"cancel_at_dial"`   // the context of ConnectContext is cancelled the moment the dial completes
 	Eager        bool     `json:"eager"`            // reconnect "other" does not wait for DISCONNECTED: Connect is called as soon as Connected() is false
 	BgDisc       bool     `json:"bg_disc"`          // a background DISCONNECTED handler that keeps running until the scenario is over
@@ -53,7 +54,7 @@ type Scenario struct {
 
 func (s Scenario) Key() string {
 	return fmt.Sprintf("in=%s out=%s/%s handler=%s causes=%s flood=%v reconnect=%s up=%v calls=%s",
-		backlogClass(s.In), backlogClass(s.Out), s.OutBy, s.Handler, strings.Join(s.Causes, "+"), s.Flood, s.Reconnect, s.ConnectUp, s.Calls) + map[bool]string{true: " storm", false: ""}[s.Storm] + map[bool]string{true: " disc-close", false: ""}[s.DiscClose] + map[bool]string{true: " lingering-bg-DISCONNECTED", false: ""}[s.BgDisc] + map[bool]string{true: " cancel-at-dial", false: ""}[s.CancelAtDial] + map[bool]string{true: " eager-reconnect", false: ""}[s.Eager] + map[bool]string{true: " after-failed-" + s.FailFirst, false: ""}[s.FailFirst != ""]
+		backlogClass(s.In), backlogClass(s.Out), s.OutBy, s.Handler, strings.Join(s.Causes, "+"), s.Flood, s.Reconnect, s.ConnectUp, s.Calls) + map[bool]string{true: " storm", false: ""}[s.Storm] + map[bool]string{true: " disc-close", false: ""}[s.DiscClose] + map[bool]string{true: " lingering-bg-DISCONNECTED", false: ""}[s.BgDisc] + map[bool]string{true: " cancel-at-dial", false: ""}[s.CancelAtDial] + map[bool]string{true: " eager-reconnect", false: ""}[s.Eager] + map[bool]string{true: " close-from-REGISTER-handler", false: ""}[s.RegClose] + map[bool]string{true: " after-failed-" + s.FailFirst, false: ""}[s.FailFirst != ""]
 }
 
 var qcap = 32
@@ -300,6 +301,40 @@ func (r *runner) cancelAtDial() {
 	}
 }
 
+// regClose: a REGISTER handler runs on the goroutine that called Connect, not on the event loop: a Close() it
+// makes is an ordinary Close.  Connect must return, DISCONNECTED must be delivered once, nothing may be left.
+func (r *runner) regClose() {
+	s := r.s
+	closeRet := make(chan struct{}, 1)
+	s.C.HandleFunc(client.REGISTER, func(c *client.Conn, l *client.Line) {
+		c.Close()
+		closeRet <- struct{}{}
+	})
+	cerr := make(chan error, 1)
+	go func() { cerr <- r.connect() }()
+	for _, what := range []string{"Close() called by the REGISTER handler", "DISCONNECTED", "Connect"} {
+		var ok bool
+		select {
+		case <-closeRet:
+			ok = what[0] == 'C' && what[1] == 'l'
+		case <-r.discCh:
+			ok = what == "DISCONNECTED"
+		case <-cerr:
+			ok = what == "Connect"
+		case <-time.After(r.deadline):
+			r.problem("C07", "disconnect-never-completes", "a REGISTER handler called Close(): still outstanding after the deadline - "+what+"; library goroutines: "+shortStacks(sess.LibGoroutines()))
+			return
+		}
+		_ = ok
+	}
+	if g := waitNoInternal(500 * time.Millisecond); len(g) > 0 {
+		r.problem("C07", "goroutines-left", "library goroutines remain after the REGISTER handler closed the connection: "+shortStacks(g))
+	}
+	if d := atomic.LoadInt32(&r.disc); d != 1 {
+		r.problem("C06", "disconnected-count", fmt.Sprintf("DISCONNECTED dispatched %d times", d))
+	}
+}
+
 // eagerReconnect: while connection 1 is being torn down behind a slow foreground handler, another goroutine
 // calls Connect as soon as Connected() is false.  Close must return, DISCONNECTED must be delivered once,
 // and the second connection must register and carry what is sent on it.
@@ -422,6 +457,7 @@ func Run(sc Scenario, seed int64) *Result {
 	defer s.Net.Release()
 	if sc.Tracking {
 		s.C.EnableStateTracking()
+		s.C.EnableStateTracking() // a second call is a no-op
 	}
 	in, _ := client.VerifQueueCaps(s.C)
 	_ = in
@@ -498,6 +534,10 @@ func Run(sc Scenario, seed int64) *Result {
 	}
 	if sc.CancelAtDial {
 		r.cancelAtDial()
+		return res
+	}
+	if sc.RegClose {
+		r.regClose()
 		return res
 	}
 	if sc.Eager {
@@ -942,6 +982,8 @@ func Families(tier string, rng *rand.Rand) []Scenario {
 	// the context is cancelled while Connect is in progress; a Connect issued while the teardown is still waiting
 	add(Scenario{Causes: []string{"cancel"}, CtxDial: true, CancelAtDial: true})
 	add(Scenario{Causes: []string{"cancel"}, CtxDial: true, CancelAtDial: true, Tracking: true, Ping: true})
+	add(Scenario{Causes: []string{"close"}, RegClose: true})
+	add(Scenario{Causes: []string{"close"}, RegClose: true, Tracking: true, CtxDial: true})
 	add(Scenario{Causes: []string{"close"}, Eager: true})
 	add(Scenario{Causes: []string{"eof"}, Eager: true, Tracking: true})
 	// a Connect that fails (refused dial, failed TLS handshake) before the session proper
@@ -1053,7 +1095,7 @@ func RunLife(args []string) int {
 		// ConnTrace.tla follows user senders within one connection; a user goroutine that keeps
 		// sending across a reconnect, and a Close issued from inside the DISCONNECTED handler, are
 		// checked by the scenario's own oracle only
-		traced := tr != nil && !(sc.OutBy == "user" && sc.Reconnect != "none" && sc.Reconnect != "") && !sc.DiscClose && sc.FailFirst == "" && !contains(sc.Causes, "bgclose") && !sc.BgDisc && !sc.CancelAtDial && !sc.Eager
+		traced := tr != nil && !(sc.OutBy == "user" && sc.Reconnect != "none" && sc.Reconnect != "") && !sc.DiscClose && sc.FailFirst == "" && !contains(sc.Causes, "bgclose") && !sc.BgDisc && !sc.CancelAtDial && !sc.Eager && !sc.RegClose
 		if traced {
 			tr.Reset(qcap, sc.Ping)
 		}
